@@ -40,14 +40,23 @@ def setup_cfg(route):
         cfg = Obj(cfgcls, dict(_target_="t", problem=pcfg if route == "config_only" else None, gamma=g, epsilon=e, max_batch_size=z3.Int("mbs"), jax_double_precision=True,
                                verbose=2, checkpoint_dir=None, checkpoint_frequency=0, max_checkpoints=1, enable_async_checkpointing=True, convergence_test="span"), label="config")
         s = Obj(cls, {}, label="solver")
+        P = ProblemStub(I); P.obj.attrs["config"] = pcfg
+        calls = []
+        def inst(c):          # assumed contract of hydra.utils.instantiate: builds _target_(**fields) -- here: the problem described by c
+            calls.append(c); return P.obj
+        I.ghost["instantiate"] = inst
         if route == "config_only": args = [None, cfg]
-        else:
-            P = ProblemStub(I); P.obj.attrs["config"] = pcfg; args = [P.obj, cfg]
-        return Ctx(self=s, _args=args, cfg=cfg, pcfg=pcfg, route=route)
+        else: args = [P.obj, cfg]
+        return Ctx(self=s, _args=args, cfg=cfg, pcfg=pcfg, route=route, P=P, calls=calls, I=I)
     return setup
 contract(SC, scenarios=[("instance.", setup_cfg("instance")), ("config_only.", setup_cfg("config_only"))],
-    ensures={"problem_set": lambda c, q: z3.BoolVal(c.self.attrs.get("problem") is not None),
-             "problem_config_captured": lambda c, q: z3.BoolVal(c.self.attrs["config"].attrs["problem"] is c.pcfg)})
+    ensures={"problem_set": lambda c, q: z3.BoolVal(c.self.attrs.get("problem") is c.P.obj),
+             "problem_config_captured": lambda c, q: z3.BoolVal(c.self.attrs["config"].attrs["problem"] is c.pcfg),
+             "instantiated_from_embedded_config_iff_no_instance": lambda c, q: z3.BoolVal((c.calls == [c.pcfg]) if c.route == "config_only" else (c.calls == [])),
+             "core_attributes": lambda c, q: z3.And(toz3(c.self.attrs["gamma"]) == toz3(c.cfg.attrs["gamma"]), toz3(c.self.attrs["epsilon"]) == toz3(c.cfg.attrs["epsilon"]),
+                                                    toz3(c.self.attrs["max_batch_size"]) == toz3(c.cfg.attrs["max_batch_size"])),
+             "x64_enabled_when_requested": lambda c, q: z3.BoolVal(c.I.ghost.get("jax_enable_x64") is True),
+             "verbosity_stored": lambda c, q: z3.BoolVal(c.self.attrs.get("verbose") == 2)})
 
 # ---- _setup_convergence_testing (C08 threshold, C20 gamma boundary, format)
 from pyvc.contract import REGISTRY
